@@ -2,6 +2,7 @@ import ESV.Comp.FrontW13
 import ESV.Comp.CodegenF0e
 import ESV.Comp.CgFinal
 import ESV.Comp.CgFinal5
+import ESV.Comp.CgFallsSound
 import ESV.Props.C01Backend
 /-
 C01, front end — what is proved about the compiler's front end (the code generator: `ESV.Comp.frontend`, model of
@@ -250,9 +251,11 @@ example : compiles exF2 = true := by decide
 several cases (and the default) sharing a block, `CaseValue` under `SwitchScenario`; nested in any way with ifs and loops
 (`cgStmts 3`); a switch without cases is its header operation.  Not in F3: a header op that ends the routine; more than one
 default; a case block that consists of a single `break` / `continue` / `break_loop` / `jump` (`_process_block` may fold such a
-block into the case's header jumps) if control can fall into it from the block before — it is in F3 if it is the first block
-of the switch, a default block, or the block before it ends in `return` / `end` / `hold` / `break` / `continue` / `break_loop` /
-`jump`. -/
+block into the case's header jumps, unless `_falls_through` of the blocks before it) if the block before it ends in an `if` with
+`else`, a `forever`, a `switch` (or, from F5 on, a macro call) — it is in F3 if it is the first block of the switch, a default
+block, or the block before it ends in `return` / `end` / `hold` / `break` / `continue` / `break_loop` / `jump` / a flow-ending
+operation (nothing falls in), or in an operation, `call`, a user label, `while`, `for`, an `if` without `else` (`surelyFalls`:
+`_falls_through` answers "yes", the block is not folded). -/
 def F3Prog (p : Program) : Prop := CgProg 3 p
 
 instance (p : Program) : Decidable (F3Prog p) := by unfold F3Prog; infer_instance
@@ -479,5 +482,28 @@ theorem return_op_in_macro_counterexample :
     (run (toSrc retOpProg).graph.lts (fun _ => true) 6 0 (3 : Nat)).1 = [.stop ⟨"Return", []⟩] := by
   rw [retOp_graph]
   decide +kernel
+
+/-! ### `_falls_through` -/
+
+/-- **`SwitchBlockCompileHandler._falls_through` is sound** (the analysis that decides whether a case block that is a single
+`break` / `continue` / `break_loop` / `jump` may be folded into the header jumps; /repo commits 7a8e55a, 9a94c6e).  For ANY labelled
+program `rs` and any block `items` of it (at `pre.length` in routine `r`, not directly behind a context op): if `_falls_through`
+answers "no", then `items = b0 ++ [a] ++ labs` where `labs` are unnamed labels, no step of `b0 ++ [a]` leads to a position of `labs`, and the
+step of `a` never goes on with the next item — it halts (a flow-ending op: `Return`, `End`, `Hold`, …), or `a` is an unconditional
+`Jump`.  So control never runs out of the block; what stands behind it is only reached from inside by a jump to a label
+standing there.  (The code generator theorems use the other direction, `FTgood` in ESV/Comp/CgFalls.lean: for the statements of
+`surelyFalls` the answer is "yes".) -/
+theorem falls_through_sound (rs : List (List LItem)) (r : Nat) (pre items post : List LItem) (hr : rs[r]? = some (pre ++ items ++ post))
+    (hpre : afterCtxL rs ⟨r, pre.length⟩ = false) (hne : items ≠ []) (hft : fallsThrough items = false) :
+    ∃ b0 a labs, items = b0 ++ [a] ++ labs ∧ isLab a = false ∧ (∀ x ∈ labs, ∃ id, x = LItem.label id false) ∧
+      (∀ i, i ≤ b0.length → ∀ q' ∈ succs (lstep rs ⟨r, pre.length + i⟩),
+        ¬ (q'.rtn = r ∧ pre.length + b0.length < q'.idx ∧ q'.idx < pre.length + items.length)) ∧
+      ((∃ e, lstep rs ⟨r, pre.length + b0.length⟩ = .halt e) ∨
+        ∃ root l, a = .ljump root (some l) ∧ isJump root.name = true ∧ lstep rs ⟨r, pre.length + b0.length⟩ = .silent (target rs l)) :=
+  fallsThrough_sound rs r pre items post hr hpre hne hft
+
+/-- non-vacuity: a `forever` block without `break_loop` (`§1; a(); Jump→1; §2`) cannot be left; with a `break_loop` (`Jump→2`) it can -/
+example : fallsThrough [.label 1 false, .op ⟨1, "a", []⟩, .ljump ⟨2, "Jump", []⟩ (some 1), .label 2 false] = false := by decide
+example : fallsThrough [.label 1 false, .ljump ⟨1, "Jump", []⟩ (some 2), .ljump ⟨2, "Jump", []⟩ (some 1), .label 2 false] = true := by decide
 
 end ESV.C01Frontend
